@@ -181,7 +181,7 @@ FACT_OBLIGATIONS = {
 }
 
 # the cache operations are atomic (map update + store call under one lock): the basis of the request-granularity model
-for _p in ("C01", "C02", "C03", "C05", "C07", "C09", "C12"):
+for _p in ("C01", "C02", "C03", "C05", "C07", "C09", "C12", "C15"):
     FACT_OBLIGATIONS.setdefault(_p, []).append(("Sessions.FactsCacheAtomic", ["FactsCacheAtomic.cache_store_calls_locked", "FactsCacheAtomic.cache_store_calls_cover", "FactsCacheAtomic.compact_callers_locked"]))
 
 # functions TRANSLATED from the source on every run (extract/ir.go -> Facts.ir_*) and proved equal to the hand-written model
